@@ -63,7 +63,7 @@ def main():
     ids = sys.argv[1:]
     jobs, slot = [], 0
     for pid in ids:
-        for k in range(1, 19):
+        for k in range(1, 22):
             jobs.append((pid, k, slot % 8))
             slot += 1
     by_slot = {}
